@@ -2,12 +2,14 @@ package ledgersim
 
 import (
 	"context"
+	"encoding/json"
 	"errors"
 	"fmt"
 	"math/rand/v2"
 	"os"
 	"path/filepath"
 	"sort"
+	"sync"
 	"testing/synctest"
 	"time"
 
@@ -800,7 +802,7 @@ func (o *cpObs) transferRound(s *Sim, f *cpFile, rg *rand.Rand, benign bool) {
 			key = "after-crash"
 		}
 		s.log.Add("    transfer error: %s", cpShort(err.Error()))
-		if key == "crash-mid-switch" && kernel.KnownKey("C16", key) {
+		if key == "crash-mid-switch" && cpIsKnown("C16", key) {
 			s.known = append(s.known, kernel.Violation{Property: "C16", Oracle: "clean-transfer-failed", Key: key, Step: s.step,
 				Detail: fmt.Sprintf("catchpoint %s: transfer (%s): %v", f.Label, desc, err)})
 			s.stat("known.crash-mid-switch", 1)
@@ -845,6 +847,26 @@ func cpShort(m string) string {
 }
 
 func kernelKnownC15(class string) bool { return kernel.KnownKey("C15", class) }
+
+var cpReplayKeyOnce sync.Once
+var cpReplayKeyVal string
+
+// cpIsKnown: (prop, key) is an OPEN known finding, recorded and skipped - except when this process replays
+// a file whose expected violation is exactly that class (./check <ID> --replay findings/.../replay.json):
+// the demonstration of a known finding must still print it.
+func cpIsKnown(prop, key string) bool {
+	cpReplayKeyOnce.Do(func() {
+		if f := os.Getenv("VERIF_REPLAY"); f != "" {
+			if b, err := os.ReadFile(f); err == nil {
+				var r kernel.Replay
+				if json.Unmarshal(b, &r) == nil {
+					cpReplayKeyVal = r.Violation.Property + "/" + r.Violation.Key
+				}
+			}
+		}
+	})
+	return kernel.KnownKey(prop, key) && cpReplayKeyVal != prop+"/"+key
+}
 
 // afterReject: what the node does next. Either it gives up (abort: ResetStagingBalances(false)) and must
 // then still be the node it was before, or it downloads again from an honest peer and must succeed.
